@@ -14,6 +14,9 @@ H_RELEASE = '''void harness(void) { struct FastRational__mpqPool P; g_pool_obj =
   OSMT_REACH("return");
 }
 '''
+H_CUT = '''t_bool SMTConfig__produce_inter(void *self) { return nondet_bool(); }
+void harness(void) { t_bool r = LASolver__shouldTryCutFromProof((struct LASolver *)0); OSMT_REACH("return"); }
+'''
 FRAME_JOBS = r'^(addition|subtraction|multiplication|division|additionAssign|subtractionAssign|multiplicationAssign|divisionAssign|ceil|negate|ctor_copy|assign_copy|ensure_mpq_valid|kill_mpq|gcd|fastrat_fdiv_q)\.R$'
 
 def jobs(tier):
@@ -21,6 +24,10 @@ def jobs(tier):
              proves='every container access of the shared pool happens under the pool mutex'),
          Job('mpqPool_release.R', C15.TU, 'opensmt::FastRational::mpqPool::release', tier='R', header='contracts/C15/pool.h', harness=H_RELEASE, enforce=False, min_obligations=2)]
     J += [j for j in C15.jobs_R() if re.search(FRAME_JOBS, j.name)]
+    # per-instance decisions of the LIA solver must not read or write process-wide state (found by a seeding agent: a function-local static counter)
+    J.append(Job('shouldTryCutFromProof.R', 'src/tsolvers/lasolver/LASolver.cc', 'opensmt::LASolver::shouldTryCutFromProof', tier='R', header='contracts/C25/stop.h', harness=H_CUT, enforce=False,
+                 pre_includes=('stubs/gmp_types.h', 'stubs/std_types.h'), stubs=('opensmt::SMTConfig::produce_inter',), opaque=('opensmt::LASolver', 'opensmt::TSolver', 'opensmt::SMTConfig'), min_obligations=1, default_unwind=3,
+                 proves='the cut heuristic of one solver instance depends on that instance only'))
     return J
 
 SHARED_OK = {'g_FastRational__pool': 'process-wide, accessed only through mpqPool::alloc/release, which hold the pool mutex (jobs mpqPool_alloc.R / mpqPool_release.R)'}
@@ -33,7 +40,8 @@ def post(sess, tier, results):
     for r in results:
         for g in (r.get('meta') or {}).get('globals', []):
             name = g['cname']
-            if re.search(r'\\bconst\\b', g['type']) or name.endswith('Mask'): k = 'constant'
+            if g.get('dynamic_init') and not g.get('tls'): k = 'shared, unprotected'      # a process-wide object initialised from whatever the first caller (thread) computed
+            elif re.search(r'\\bconst\\b', g['type']) or name.endswith('Mask'): k = 'constant'
             elif g.get('tls'): k = 'thread_local'
             elif name in SHARED_OK: k = 'shared, lock-protected'
             else: k = 'shared, unprotected'
